@@ -316,7 +316,7 @@ func checkExec(rt *rapid.T, c *chains.Chain) {
 	if !allowedError(c, tx.Error, false) {
 		fail("the statement failed: %v", tx.Error)
 	}
-	if len(stmts) != len(caps) || len(stmts) < len(plan.Real) || len(stmts) > len(plan.Real)+1 || (len(stmts) > len(plan.Real) && !plan.ExtraReal) {
+	if len(stmts) != len(caps) || len(stmts) < len(plan.Real) || (len(stmts) > len(plan.Real)+1 && !plan.ExtraRealMany) || (len(stmts) > len(plan.Real) && !plan.ExtraReal && !plan.ExtraRealMany) {
 		fail("expected %d statement(s), the driver saw %d and gorm built %d", len(plan.Real), len(stmts), len(caps))
 	}
 	for k, ev := range stmts {
